@@ -615,8 +615,15 @@ def _root_.HickoryVerif.Wire.RData.proved : RData → Bool
   | .unknown _ _
   | .ds _ _ _ _ | .dnskey _ _ _ _ | .tlsa _ _ _ _ | .sshfp _ _ _ | .openpgpkey _ | .cert _ _ _ _
   | .nsec3param _ _ _ | .caa _ _ _ _ | .key _ _ _ _ | .naptr _ _ _ _ _ _ | .sig _ _ _ _ _ _ _ _ _
-  | .tsig _ _ _ _ _ _ _ => true
+  | .tsig _ _ _ _ _ _ _ | .nsec _ _ | .nsec3 _ _ _ _ _ _ | .csync _ _ _ => true
   | _ => false
+
+/-- the octets `RecordTypeSet::emit` writes for a set that carries its original encoding -/
+def tsBytes (ts : TypeSet) : Bytes := ts.orig.getD []
+
+/-- the normal form of a decoded `RecordTypeSet`: it carries the octets it was decoded from, and
+`types` is what the bitmap state machine reads from them -/
+def TypeSetOK (ts : TypeSet) : Prop := ∃ bs, ts.orig = some bs ∧ parseBitmap bs .window [] = .ok ts.types
 
 /-- wire form of the name-free "blob" variants (stage 3): fixed fields, then the rest as it is -/
 def blobWire : RData → Bytes
@@ -629,6 +636,9 @@ def blobWire : RData → Bytes
   | .nsec3param oo iter salt => [1, (if oo then 1 else 0)] ++ (u16b iter ++ ([salt.length] ++ salt))
   | .caa cr rs tag v => [rs + (if cr then 128 else 0), tag.length] ++ (tag ++ v)
   | .key flags proto alg k => u16b flags ++ ([proto, alg] ++ k)
+  | .nsec3 oo iter salt hash _ ts =>
+    [1, (if oo then 1 else 0)] ++ (u16b iter ++ ([salt.length] ++ (salt ++ ([hash.length] ++ (hash ++ tsBytes ts)))))
+  | .csync serial flags ts => u32b serial ++ (u16b flags ++ tsBytes ts)
   | _ => []
 
 /-- the layout `RData::emit` leaves for the covered variants -/
@@ -657,6 +667,9 @@ def layRData : RData → Lay
   | .nsec3param oo iter salt => laySeg (blobWire (.nsec3param oo iter salt))
   | .caa cr rs tag v => laySeg (blobWire (.caa cr rs tag v))
   | .key flags proto alg k => laySeg (blobWire (.key flags proto alg k))
+  | .nsec3 oo iter salt hash b32 ts => laySeg (blobWire (.nsec3 oo iter salt hash b32 ts))
+  | .csync serial flags ts => laySeg (blobWire (.csync serial flags ts))
+  | .nsec next ts => laySeq (layName next.labels) (laySeq (laySeg (tsBytes ts)) layEmpty)
   | .naptr order pref flags services regexp n =>
     laySeq (laySeg (u16b order)) (laySeq (laySeg (u16b pref)) (laySeq (laySeg (flags.length :: flags))
       (laySeq (laySeg (services.length :: services)) (laySeq (laySeg (regexp.length :: regexp))
@@ -689,6 +702,10 @@ def _root_.HickoryVerif.Wire.RData.namesWF : RData → Prop
   | .nsec3param _ _ salt => salt.length < 256
   | .caa _ rs tag _ => rs < 128 ∧ tag.length < 256
   | .key _ proto alg _ => proto < 256 ∧ alg < 256
+  -- the type-bitmap family: the set carries its original encoding (a decoded set always does)
+  | .nsec next ts => next.WF ∧ ts.orig.isSome = true
+  | .nsec3 _ _ salt hash _ ts => salt.length < 256 ∧ hash.length < 256 ∧ ts.orig.isSome = true
+  | .csync _ _ ts => ts.orig.isSome = true
   | .naptr _ _ _ _ _ n => n.WF
   | .sig _ alg labels _ _ _ _ signer _ => signer.WF ∧ alg < 256 ∧ labels < 256
   -- TSIG: the `u16::try_from` / 48-bit conversions of `TSIG::emit` succeed
@@ -713,6 +730,7 @@ theorem isLayout_rdata (d : RData) (hp : d.proved = true) : IsLayout (layRData d
   case hinfo => exact isLayout_seg _
   case null => exact isLayout_seg _
   case unknown => exact isLayout_seg _
+  case nsec => exact isLayout_seq (isLayout_name _) (isLayout_seq (isLayout_seg _) isLayout_empty)
   case naptr =>
     exact isLayout_seq (isLayout_seg _) (isLayout_seq (isLayout_seg _) (isLayout_seq (isLayout_seg _)
       (isLayout_seq (isLayout_seg _) (isLayout_seq (isLayout_seg _) (isLayout_seq (isLayout_name _) isLayout_empty)))))
@@ -727,6 +745,12 @@ theorem isLayout_rdata (d : RData) (hp : d.proved = true) : IsLayout (layRData d
         (isLayout_seq (isLayout_seg _) (isLayout_seq (isLayout_seg _) (isLayout_seq (isLayout_seg _)
           (isLayout_seq (isLayout_seg _) isLayout_empty)))))))))
   all_goals exact isLayout_seg _
+
+theorem emits_emitTypeSet (ts : TypeSet) (h : ts.orig.isSome = true) : Emits (emitTypeSet ts) (laySeg (tsBytes ts)) := by
+  unfold emitTypeSet tsBytes
+  cases ho : ts.orig with
+  | none => rw [ho] at h; cases h
+  | some bs => exact emits_emitSlice bs
 
 theorem emits_emitRData (t : Nat) (d : RData) (hp : d.proved = true) (hwf : d.namesWF) :
     Emits (emitRData t d) (layRData d) := by
@@ -794,6 +818,28 @@ theorem emits_emitRData (t : Nat) (d : RData) (hp : d.proved = true) (hwf : d.na
       (emits_seg_seq (emits_emitSlice salt) emits_nothing_seg))))
     have hmod : salt.length % 256 = salt.length := Nat.mod_eq_of_lt hwf
     simpa [seqAll, blobWire, u16b, hmod] using this
+  case nsec next ts =>
+    exact emits_withRdataBehavior (emits_seqAll2 (isLayout_name _) (isLayout_seg _) (emits_emitName next hwf.1)
+      (emits_emitTypeSet ts hwf.2)) _
+  case nsec3 oo iter salt hash b32 ts =>
+    have h1 := emits_emitU8 1
+    have h2 := emits_emitU8 (if oo then 1 else 0)
+    have h3 := emits_emitU8 (salt.length % 256)
+    have h4 := emits_emitU8 (hash.length % 256)
+    have e2 : (if oo then 1 else 0) % 256 = (if oo then 1 else 0) := by cases oo <;> rfl
+    rw [e2] at h2
+    rw [Nat.mod_mod, Nat.mod_eq_of_lt hwf.1] at h3
+    rw [Nat.mod_mod, Nat.mod_eq_of_lt hwf.2.1] at h4
+    have := emits_seg_seq h1 (emits_seg_seq h2 (emits_seg_seq (emits_emitU16 iter) (emits_seg_seq h3
+      (emits_seg_seq (emits_emitSlice salt) (emits_seg_seq h4 (emits_seg_seq (emits_emitSlice hash)
+        (emits_seg_seq (emits_emitTypeSet ts hwf.2.2) emits_nothing_seg)))))))
+    have hm1 : salt.length % 256 = salt.length := Nat.mod_eq_of_lt hwf.1
+    have hm2 : hash.length % 256 = hash.length := Nat.mod_eq_of_lt hwf.2.1
+    simpa [seqAll, blobWire, u16b, hm1, hm2] using this
+  case csync serial flags ts =>
+    have := emits_seg_seq (emits_emitU32 serial) (emits_seg_seq (emits_emitU16 flags)
+      (emits_seg_seq (emits_emitTypeSet ts hwf) emits_nothing_seg))
+    simpa [seqAll, blobWire, u16b, u32b] using this
   case key flags proto alg k =>
     have h1 := emits_emitU8 proto; have h2 := emits_emitU8 alg
     rw [Nat.mod_eq_of_lt hwf.1] at h1; rw [Nat.mod_eq_of_lt hwf.2] at h2
@@ -1005,6 +1051,11 @@ def _root_.HickoryVerif.Wire.RData.typeOK (t : Nat) : RData → Prop
   | .sig covered _ _ ottl exp inc tag _ _ => (t = 46 ∨ t = 24) ∧ covered < 65536 ∧ ottl < 4294967296 ∧
       exp < 4294967296 ∧ inc < 4294967296 ∧ tag < 65536
   | .tsig _ _ fudge _ oid err _ => t = 250 ∧ fudge < 65536 ∧ oid < 65536 ∧ err < 65536
+  -- the type-bitmap family: the set is in the decoder's normal form `TypeSetOK`; NSEC3's base32 label is
+  -- the one computed from the hash; CSYNC's flags pass the (low-octet) mask of `read_data`
+  | .nsec _ ts => t = 47 ∧ TypeSetOK ts
+  | .nsec3 _ iter _ hash b32 ts => t = 50 ∧ iter < 65536 ∧ b32 = b32Label hash ∧ TypeSetOK ts
+  | .csync serial flags ts => t = 62 ∧ serial < 4294967296 ∧ flags < 65536 ∧ (flags % 256) / 4 = 0 ∧ TypeSetOK ts
   | _ => False
 
 /-- the value with every embedded name made fully qualified (what `Name::read` returns) -/
@@ -1017,6 +1068,7 @@ def _root_.HickoryVerif.Wire.RData.fq : RData → RData
   | .sig c a l o e i t signer sg => .sig c a l o e i t { signer with fqdn := true } sg
   -- `TsigAlgorithm::to_name()` gives the algorithm name back relative
   | .tsig alg t f m o e x => .tsig { alg with fqdn := false } t f m o e x
+  | .nsec next ts => .nsec { next with fqdn := true } ts
   | d => d
 
 theorem drop_of_segAt_end {buf d : Bytes} {p : Nat} (h : SegAt buf p d) (he : p + d.length = buf.length) :
@@ -1109,6 +1161,20 @@ theorem segAt_u16_tail {buf rest : Bytes} {p v : Nat} (h : SegAt buf p (u16b v +
 theorem reads_toEnd_seg {buf rest : Bytes} {p : Nat} (h : SegAt buf p rest) (he : p + rest.length = buf.length) :
     Reads Rd.readVecToEnd buf p rest buf.length := by
   have := Reads.readVecToEnd buf p; rwa [drop_of_segAt_end h he] at this
+
+theorem reads_typeSet {buf : Bytes} {p : Nat} (ts : TypeSet) (hok : TypeSetOK ts)
+    (h : SegAt buf p (tsBytes ts)) (he : p + (tsBytes ts).length = buf.length) :
+    Reads readTypeSet buf p ts buf.length := by
+  obtain ⟨bs, ho, hp⟩ := hok
+  have hb : tsBytes ts = bs := by simp [tsBytes, ho]
+  rw [hb] at h he
+  unfold readTypeSet
+  refine Reads.toEnd ?_
+  rw [drop_of_segAt_end h he]
+  simp only [hp, Outcome.map]
+  congr 1
+  cases ts with
+  | mk types orig => simp only at ho; subst ho; rfl
 
 theorem reads_readTag {buf : Bytes} : ∀ (tag acc : Bytes) (p : Nat), SegAt buf p tag → tag.all isAlnum = true →
     Reads (readTag tag.length acc) buf p (acc ++ tag) (p + tag.length)
@@ -1360,6 +1426,77 @@ theorem reads_rdataBody {H : Nat × Nat → Prop} {opq : Nat → Rd Bytes} {t : 
       cases oo <;> simp
     refine Reads.bind hhead ?_
     exact Reads.pure _ _ _
+  case nsec next ts =>
+    obtain ⟨rfl, hts⟩ := hty
+    obtain ⟨m1, l1, m2, l2, l3⟩ := hl
+    obtain ⟨rfl, _⟩ := l3
+    obtain ⟨g2, e2⟩ := l2
+    have hbody : readRDataBody opq 47 = readDnssec 47 := rfl
+    rw [hbody]
+    simp only [readDnssec, Nat.reduceEqDiff, ↓reduceIte, or_self]
+    refine Reads.bind (reads_name_of_lay l1 hwf.1) ?_
+    refine Reads.bind (reads_typeSet ts hts g2 e2.symm) ?_
+    exact Reads.pure _ _ _
+  case nsec3 oo iter salt hash b32 ts =>
+    obtain ⟨rfl, hit, hb32, hts⟩ := hty
+    obtain ⟨hsl, hhl, _⟩ := hwf
+    obtain ⟨hseg, hq⟩ := hl
+    simp only [blobWire, List.length_append, List.length_cons, List.length_nil, u16b] at hq
+    have s1 := segAt_cons_tail hseg
+    have s2 := segAt_cons_tail s1
+    have s3 := segAt_u16_tail s2
+    have s4 : SegAt buf (p + 1 + 1 + 2 + 1) (salt ++ ([hash.length] ++ (hash ++ tsBytes ts))) := segAt_cons_tail s3
+    have s5 : SegAt buf (p + 1 + 1 + 2 + 1) salt := s4.append_left
+    have s6 : SegAt buf (p + 1 + 1 + 2 + 1 + salt.length) ([hash.length] ++ (hash ++ tsBytes ts)) := s4.append_right
+    have s7 : SegAt buf (p + 1 + 1 + 2 + 1 + salt.length + 1) (hash ++ tsBytes ts) := segAt_cons_tail s6
+    have s8 : SegAt buf (p + 1 + 1 + 2 + 1 + salt.length + 1) hash := s7.append_left
+    have s9 : SegAt buf (p + 1 + 1 + 2 + 1 + salt.length + 1 + hash.length) (tsBytes ts) := s7.append_right
+    have hbody : readRDataBody opq 50 = readDnssec 50 := rfl
+    rw [hbody]
+    simp only [readDnssec, Nat.reduceEqDiff, ↓reduceIte, or_self]
+    have hhead : Reads readNsec3Head buf p (oo, iter, salt) (p + 1 + 1 + 2 + 1 + salt.length) := by
+      unfold readNsec3Head
+      refine Reads.bind (Reads.pop (segAt_cons_get hseg)) ?_
+      rw [if_neg (by simp)]
+      refine Reads.bind (Reads.pop (segAt_cons_get s1)) ?_
+      rw [if_neg (by cases oo <;> simp)]
+      refine Reads.bind (reads_u16_seg s2 hit) ?_
+      refine Reads.bind (Reads.pop (segAt_cons_get s3)) ?_
+      refine Reads.bind (Reads.remaining buf _) ?_
+      rw [if_neg (by omega)]
+      refine Reads.bind (Reads.readSlice s5) ?_
+      refine Reads.pure' _ _ ?_
+      cases oo <;> simp
+    refine Reads.bind hhead ?_
+    simp only
+    refine Reads.bind (Reads.pop (segAt_cons_get s6)) ?_
+    refine Reads.bind (Reads.remaining buf _) ?_
+    rw [if_neg (by omega)]
+    refine Reads.bind (Reads.readSlice s8) ?_
+    refine Reads.bind (reads_typeSet ts hts s9 (by omega)) ?_
+    refine Reads.pure' _ _ ?_
+    rw [hb32]; rfl
+  case csync serial flags ts =>
+    obtain ⟨rfl, hser, hfl, hmask, hts⟩ := hty
+    obtain ⟨hseg, hq⟩ := hl
+    simp only [blobWire, List.length_append, List.length_cons, List.length_nil, u16b, u32b] at hq
+    have s1 : SegAt buf (p + 4) (u16b flags ++ tsBytes ts) := by simpa [u32b] using hseg.append_right
+    have s2 := segAt_u16_tail s1
+    have hbody : readRDataBody opq 62 = (do
+        let serial ← Rd.readU32
+        let flags ← Rd.readU16
+        if (flags % 256) / 4 ≠ 0 then Rd.fail
+        else
+          let ts ← readTypeSet
+          pure (.csync serial flags ts)) := rfl
+    rw [hbody]
+    refine Reads.bind (reads_u32_of_seg (H := fun _ => True) ⟨hseg.append_left, rfl⟩ hser) ?_
+    refine Reads.bind (reads_u16_seg s1 hfl) ?_
+    rw [if_neg (by omega)]
+    have he : p + 4 + 2 + (tsBytes ts).length = buf.length := by
+      omega
+    refine Reads.bind (reads_typeSet ts hts s2 he) ?_
+    exact Reads.pure _ _ _
   case key flags proto alg k =>
     obtain ⟨rfl, hfl, hk1, hk2, hk3, hk4⟩ := hty
     obtain ⟨hseg, hq⟩ := hl
@@ -1572,6 +1709,12 @@ theorem layRData_pos {H : Nat × Nat → Prop} {b : Bytes} {p q : Nat} (d : RDat
     obtain ⟨_, rfl⟩ := hl
     have : dd.length ≠ 0 := fun h => hne (List.eq_nil_of_length_eq_zero h)
     simp only [blobWire]; omega
+  case nsec next ts =>
+    obtain ⟨m1, l1, rest⟩ := hl
+    obtain ⟨F, h1, _⟩ := l1
+    have h2 := h1.pos_lt_end
+    have := (isLayout_seq (isLayout_seg _) isLayout_empty).bounds rest
+    omega
   case tsig alg time fudge mac oid err other =>
     obtain ⟨m1, l1, rest⟩ := hl
     obtain ⟨F, h1, _⟩ := l1
@@ -1598,7 +1741,7 @@ theorem layRData_pos {H : Nat × Nat → Prop} {b : Bytes} {p q : Nat} (d : RDat
     simp [u16b] at *; omega
   all_goals
     obtain ⟨_, rfl⟩ := hl
-    simp [blobWire, u16b]
+    simp [blobWire, u16b, u32b]
 
 /-- the record with every name made fully qualified -/
 def _root_.HickoryVerif.Wire.Record.fq (r : Record) : Record :=
